@@ -31,10 +31,12 @@ THEOREMS = [_NS + t for t in (
     # hypotheses the class needs: the width c - b must be an int32_t (the specification only bounds the number of
     # steps); model artefact: recursion bound of the checker's look-back at a deeply nested left neighbour
     "wide_range_counterexample", "deep_neighbour_model_fuel",
-    # known finding C11-K1: the full statement fails on "077"; the proved part lies outside the trigger
-    "scan_denotes_counterexample", "proved_not_K1",
-    # known finding C11-K2: the full statement fails on "42%c"; the proved part lies outside the trigger
-    "checker_scanner_agree_counterexample", "proved_not_K2", "k2_witness", "k2_count",
+    # known finding C11-K1: the full statements fail on "077" (scan_denotes) and on "-071 -58 ... -076"
+    # (checker_scanner_agree); the proved part lies outside the trigger
+    "scan_denotes_counterexample", "checker_scanner_agree_counterexample", "proved_not_K1",
+    # former finding C11-K2, repaired by fixes/C11-08: "42%c" (a comment directly behind a numeric literal) is read as
+    # 42; a sentence with a comment directly behind every kind of numeric word is read as its denotation
+    "num_comment_witness", "num_comment_reads", "exTightNum_reads",
     # non-vacuity: sentences with one value of every proved construct under a messy layout
     "exPlain", "exProved")]
 HARNESS = {"src": ["scan.cpp"]}
@@ -58,10 +60,11 @@ RULE = ("each case: one text generated constructively from the grammar of doc/Gu
         "a case is non-trivial when the text has at least two values or one "
         "compound value; distinct = distinct op line")
 ASSUMPTIONS = [
-    "the fix patches fixes/C11-01 … C11-07 are applied to the tree (on top of fixes/C10-*.patch): leading white space / "
+    "the fix patches fixes/C11-01 … C11-08 are applied to the tree (on top of fixes/C10-*.patch): leading white space / "
     "comments in rtosc_scan_arg_vals, numeric test for open-ended ranges in the scanner, no scan of a non-numeric left "
     "neighbour in the checker, no left neighbour taken from inside a preceding array, nearest step count for float ranges, "
-    "args_before in arrays counts argument values, the checker rejects a range of a repetition (3x1 ... 5)",
+    "args_before in arrays counts argument values, the checker rejects a range of a repetition (3x1 ... 5), a numeric "
+    "word ends at the comment sign (42%c)",
     "what is compared between model and implementation is what observe_at names: the count, the number of cells "
     "written, the bytes consumed, the cells (booleans with their payload val.T: T1 / F0), and the same for the text "
     "printed from the cells (there only 'consumed entirely'); the printed text itself is not compared; on texts "
@@ -107,12 +110,14 @@ ASSUMPTIONS = [
     "promises C99 (octal) reading and the suffixed forms are read as octal; the model mirrors it, Lean proves the "
     "counterexample, the run attributes an input to it only when the trigger holds, implementation = model, and every "
     "clause holds under the decimal reading",
-    "known finding C11-K2: a numeric literal directly followed by '%' (42%c, 1.5%c, 2x1%c, 1 ... 5%c) is rejected by the "
-    "checker although every other kind of value may be followed by a comment directly (upstream test 'comment right "
-    "after true'); scanf_fmtstr does not end the numeric word at '%'; the model mirrors it (C10's Pretty/Lex.lean "
-    "numWordLen), Lean proves the counterexample, an input is attributed only when the trigger holds, implementation = "
-    "model and the text is rejected as a whole; the repair is proposed as fixes/C11-08-numeric-word-ends-at-comment.patch "
-    "(not applied: it needs the same one-line change in C10's model)",
+    "former finding C11-K2 (repaired, fixes/C11-08-numeric-word-ends-at-comment.patch): a numeric literal directly "
+    "followed by '%' (42%c, 1.5%c, 2x1%c, 1 ... 5%c) was rejected by the checker although every other kind of value may "
+    "be followed by a comment directly (upstream test 'comment right after true'); scanf_fmtstr now ends the numeric "
+    "word at '%' as well, the model follows (C10's Pretty/Lex.lean numWordLen, C10's token lemmas re-proved with the fact "
+    "that no character of a printed numeric word is '%'); such texts are generated as often as comments directly behind "
+    "other values and must satisfy every clause; Lean evaluates the former witness and one sentence with a comment "
+    "directly behind every kind of numeric word (num_comment_reads, exTightNum_reads), the general theorems stay "
+    "restricted to Layout.spaced",
     "float ranges: the oracle follows the manual (an n with |b+nd-c| <= 0.001; the step is one IEEE subtraction); texts "
     "whose n or tolerance test is too close to call for a reference with exact arithmetic, and ranges whose left "
     "neighbour is the computed end of a float range (not defined by the manual), are not generated",
@@ -145,8 +150,8 @@ LEVEL_TEXT = ("Lean theorems over an executable model of checker, scanner and pr
               "The remaining constructs (octal and suffixed hex integers, floats, ranges directly behind an array / inside arrays / "
               "of other types or spellings, open-ended arrays, comments directly behind a value) are checked by exact "
               "model/implementation correspondence on generated sentences and by an independent reference reader of the "
-              "manual evaluated on the implementation's output, not proved. Two known findings with proved counterexamples "
-              "(C11-K1 octal read as decimal; C11-K2 a numeric literal directly followed by '%' is rejected)")
+              "manual evaluated on the implementation's output, not proved. One known finding with proved counterexamples "
+              "(C11-K1 octal read as decimal)")
 LEVEL_NOTE = ("partial: scalars in the proved spellings, arrays, nxA and top-level ranges of decimal i integers (first value, or "
               "behind a scalar / nx<scalar> / another range: 'a b ... c' with the step from a and b) under all layouts without a "
               "comment directly behind a value are proved; octal / suffixed-hex / float spellings, ranges of c/h/f/d or in other "
@@ -308,7 +313,7 @@ class Reader:
         self.n = len(text)
         self.k1 = k1
         self.k1_words = 0          # literals on which the two readings differ
-        self.k2_words = 0          # numeric literals directly followed by '%' (finding C11-K2)
+        self.k2_words = 0          # numeric literals directly followed by '%' (former finding C11-K2; statistics)
 
     def ws(self, p):
         while p < self.n and self.t[p] in WS:
@@ -326,7 +331,7 @@ class Reader:
 
     def word_end(self, p):
         # "Comments are introduced with a percent sign": a '%' ends a numeric word like white space does
-        # (the code does not end the word there: known finding C11-K2)
+        # (so does the code since fix C11-08; before, "42%c" was rejected: former finding C11-K2)
         while p < self.n and self.t[p] not in WS and self.t[p] not in b")]%" and self.t[p:p + 3] != b"...":
             p += 1
         return p
@@ -670,9 +675,9 @@ def read_text(text, k1=False):
         return None
 
 
-def k2_trigger(text):
-    """finding C11-K2: the text has a numeric literal that is directly followed by '%' (counted by the reference
-    reader while it reads the text)"""
+def num_percent(text):
+    """the text has a numeric literal that is directly followed by '%' (counted by the reference reader while it
+    reads the text): the trigger of the former finding C11-K2 (fix C11-08); only used for the input statistics"""
     r = Reader(text)
     try:
         r.items(0, False)
@@ -927,9 +932,9 @@ def is_ns(op):
     return "ns" in op.split()[1:]
 
 
-def oracle(op, impl_out, k1=False, k2=False):
-    """k1 / k2: evaluate under the reading of the known findings C11-K1 (an unsuffixed literal with a leading zero is
-    decimal) / C11-K2 (a text with a numeric literal directly followed by '%' is rejected)"""
+def oracle(op, impl_out, k1=False):
+    """k1: evaluate under the reading of the known finding C11-K1 (an unsuffixed literal with a leading zero is
+    decimal)"""
     if is_ns(op):
         return None                       # marked as lying outside the grammar: nothing is demanded
     text, alt = op_texts(op)
@@ -942,29 +947,24 @@ def oracle(op, impl_out, k1=False, k2=False):
     d = parse_out(parts[0])
     if d is None:
         return "unreadable output: " + impl_out[:200]
-    t_k2 = k2 and k2_trigger(text)
-    if t_k2:
-        if d["count"] >= 0:
-            return "reading of C11-K2: a text with a numeric literal directly followed by '%' is not rejected"
-    else:
-        if "written" not in d:
-            return "the checker rejects a sentence of the grammar (count %d)" % d["count"]
-        f = check_one(text, d, "text", k1)
-        if f:
-            return f
-        # print + scan again: equal values
-        if "count2" not in d:
-            return "no print/rescan part in the output"
-        if "written2" not in d:
-            return "the checker rejects the printed form of the scanned values (count %d)" % d["count2"]
-        if d["written2"] != d["count2"] or d["rd2"] != d["len2"]:
-            return "printed form: checker %d, scanner wrote %d, consumed %d of %d" % (d["count2"], d["written2"], d["rd2"], d["len2"])
-        a, b = parse_cells(d["cells"]), parse_cells(d["cells2"])
-        if a is None or b is None:
-            return "scanned cells do not form a value list"
-        tol = Fraction(1, 1000) if has_float_range(ref) else None
-        if not values_equal(expand(a), expand(b), tol):
-            return "scan(print(scan text)) differs from scan text: %s vs %s" % (" ".join(d["cells"])[:200], " ".join(d["cells2"])[:200])
+    if "written" not in d:
+        return "the checker rejects a sentence of the grammar (count %d)" % d["count"]
+    f = check_one(text, d, "text", k1)
+    if f:
+        return f
+    # print + scan again: equal values
+    if "count2" not in d:
+        return "no print/rescan part in the output"
+    if "written2" not in d:
+        return "the checker rejects the printed form of the scanned values (count %d)" % d["count2"]
+    if d["written2"] != d["count2"] or d["rd2"] != d["len2"]:
+        return "printed form: checker %d, scanner wrote %d, consumed %d of %d" % (d["count2"], d["written2"], d["rd2"], d["len2"])
+    a, b = parse_cells(d["cells"]), parse_cells(d["cells2"])
+    if a is None or b is None:
+        return "scanned cells do not form a value list"
+    tol = Fraction(1, 1000) if has_float_range(ref) else None
+    if not values_equal(expand(a), expand(b), tol):
+        return "scan(print(scan text)) differs from scan text: %s vs %s" % (" ".join(d["cells"])[:200], " ".join(d["cells2"])[:200])
     # a second rendering of the same choices scans to the same cells
     if alt is not None:
         if len(parts) < 2:
@@ -974,16 +974,12 @@ def oracle(op, impl_out, k1=False, k2=False):
             return "second rendering: unreadable output (%s)" % parts[1][:100]
         if read_text(alt, k1) is None:
             return None
-        if k2 and k2_trigger(alt):
-            if d2["count"] >= 0:
-                return "reading of C11-K2: second rendering with a numeric literal directly followed by '%' is not rejected"
-            return None
         if "written" not in d2:
             return "second rendering: the checker rejects it (%s)" % parts[1][:100]
         f = check_one(alt, d2, "second rendering", k1)
         if f:
             return f
-        if not t_k2 and d2["cells"] != d["cells"] and not has_float_range(ref):
+        if d2["cells"] != d["cells"] and not has_float_range(ref):
             return "two renderings of the same choices scan differently: %s vs %s" % (" ".join(d["cells"])[:200], " ".join(d2["cells"])[:200])
     return None
 
@@ -991,30 +987,28 @@ def oracle(op, impl_out, k1=False, k2=False):
 def known(op, impl_out, model_out, defs):
     """C11-K1: an unsuffixed integer literal with a leading zero ("077") is read as decimal, although the manual
     (C99 rules) and the suffixed forms "077i" / "077h" read it as octal.
-    C11-K2: a numeric literal directly followed by a comment ("42%c") is rejected, although every other kind of
-    value may be followed by '%' directly ("true%c").
-    An input is attributed to a finding only if (1) its trigger holds for the text (or its second rendering),
+    An input is attributed to the finding only if (1) its trigger holds for the text (or its second rendering),
     (2) the implementation's output is what the defect-mirroring model predicts, and (3) every clause of the
-    property holds for the output under the reading of the finding (K1: the literal is decimal; K2: the text with the
-    trigger is rejected, a rendering without it is read in full)."""
+    property holds for the output under the reading of the finding (the literal is decimal).
+    (The former finding C11-K2, "42%c" rejected, is repaired by fixes/C11-08 and attributes nothing: a tree that
+    rejects a numeric literal directly followed by a comment is a VIOLATION.)"""
     if is_ns(op):
         return None
     ids = set(e.get("id") for e in defs)
     text, alt = op_texts(op)
     texts = [text] + ([alt] if alt is not None else [])
     t1 = "C11-K1" in ids and any(k1_trigger(t) for t in texts)
-    t2 = "C11-K2" in ids and any(k2_trigger(t) for t in texts)
-    if not (t1 or t2):
+    if not t1:
         return None
-    # the readings to try: the one of the defect-mirroring model first (every finding whose trigger holds); then the
-    # ones in which a finding has been repaired in this tree (the implementation's answer then satisfies every clause
-    # under the manual's reading of that construct and only the model differs: no alarm)
-    for k1, k2 in ((t1, t2), (t1, False), (False, t2), (False, False)):
-        if oracle(op, impl_out, k1=k1, k2=k2) is not None:
+    # the readings to try: the one of the defect-mirroring model first; then the one in which the finding has been
+    # repaired in this tree (the implementation's answer then satisfies every clause under the manual's reading of
+    # that construct and only the model differs: no alarm)
+    for k1 in (True, False):
+        if oracle(op, impl_out, k1=k1) is not None:
             continue
-        if (k1, k2) == (t1, t2) and model_out is not None and model_out != impl_out:
+        if k1 and model_out is not None and model_out != impl_out:
             continue
-        return "C11-K2" if t2 else "C11-K1"
+        return "C11-K1"
     return None
 
 
@@ -1498,13 +1492,9 @@ def g_ins(rng, comments, stats):
     return out
 
 
-def is_num_word(tok):
-    return bool(RE_INT.match(tok) or RE_DECF.match(tok) or RE_HEXF.match(tok))
-
-
 def sep_ins(rng, stats, canonical=False, adjacent=1.0):
     """the text between two top-level values; `adjacent` scales the probability of a comment directly behind the
-    value (behind a numeric literal that is known finding C11-K2: generated, but less often)"""
+    value (also behind a numeric literal, "42%c": former finding C11-K2, fix C11-08)"""
     if canonical:
         return b" "
     g = g_ins(rng, True, stats)
@@ -1542,10 +1532,10 @@ def render(rng, items, stats, canonical=False):
         if not last:
             # between two values: insertions (comments allowed).  A comment may follow the value directly
             # ("true%c\nfalse"); otherwise at least one white-space character comes first
-            out += sep_ins(rng, stats, canonical, 0.15 if is_num_word(toks[-1][0]) else 1.0)
+            out += sep_ins(rng, stats, canonical)
         else:
             tail = ins(True)
-            if tail[:1] == b"%" and rng.random() < (0.9 if is_num_word(toks[-1][0]) else 0.6):
+            if tail[:1] == b"%" and rng.random() < 0.6:
                 tail = b" " + tail
             elif tail[:1] == b"%":
                 stats["comment_adjacent"] = stats.get("comment_adjacent", 0) + 1
@@ -1805,17 +1795,6 @@ def sp_array(rng, stats, depth):
     return "A%d(%s)" % (opn, ",".join(e for e, _ in elems)), text
 
 
-def sp_ends_num(enc):
-    """the text of the encoded item ends in a numeric word"""
-    if enc[0] == "A":
-        return False
-    if enc[0] == "R":
-        return sp_ends_num(enc[enc.index("(") + 1:-1])
-    if enc[0] == "G":
-        enc = "V" + enc.rsplit("~", 1)[1]
-    return enc[1] in "ih" or (enc[1] == "f" and "!" not in enc)
-
-
 def g_spec_case(rng, stats):
     """one sentence of the specification: (encoding, text)"""
     n = rng.choice([0, 1, 1, 2, 2, 3, 3, 4, 5, 6, 8])
@@ -1867,13 +1846,12 @@ def g_spec_case(rng, stats):
     text = g_ins(rng, True, stats)
     for k, (e, t) in enumerate(items):
         text += t
-        # (the driver does not know the layout: comments directly behind a numeric literal, known finding
-        #  C11-K2, are left to the first stream; the driver itself renders every sentence with comments
-        #  directly behind the values where the finding does not apply)
+        # (comments directly behind a value, numeric literals included: fix C11-08; the driver itself also renders
+        #  every sentence with comments directly behind all the values)
         if k + 1 < len(items):
-            text += sep_ins(rng, stats, False, 0.0 if sp_ends_num(e) else 1.0)
+            text += sep_ins(rng, stats, False)
     tail = g_ins(rng, True, stats)
-    if tail[:1] == b"%" and (rng.random() < 0.6 or (items and sp_ends_num(items[-1][0]))):
+    if tail[:1] == b"%" and rng.random() < 0.6:
         tail = b" " + tail
     return ",".join(e for e, _ in items) or "-", text + tail
 
@@ -1899,6 +1877,8 @@ def generate(rng, tier, stats):
         stats["cells_%02d" % min(nv, 20)] = stats.get("cells_%02d" % min(nv, 20), 0) + 1
         if k1_trigger(text):
             stats["k1_octal_plain"] = stats.get("k1_octal_plain", 0) + 1
+        if num_percent(text):
+            stats["comment_adjacent_numeric"] = stats.get("comment_adjacent_numeric", 0) + 1
         op = hx(text)
         if rng.random() < 0.4:
             alt = render(rng, items, stats, canonical=rng.random() < 0.3)
@@ -1914,4 +1894,6 @@ def generate(rng, tier, stats):
             stats["spec_not_a_sentence"] = stats.get("spec_not_a_sentence", 0) + 1
             continue
         stats["spec_sentences"] = stats.get("spec_sentences", 0) + 1
+        if num_percent(text):
+            stats["spec_comment_adjacent_numeric"] = stats.get("spec_comment_adjacent_numeric", 0) + 1
         yield hx(text) + " sent=" + enc
